@@ -74,18 +74,21 @@ class AvroWriter(AbstractWriter):
         self.writer.write(r._packdict())
 
     def flush(self):
-        if not self.writer:
-            self.writer = fastavro.write.Writer(
-                self.fp,
-                fastavro.parse_schema({"type": "record", "name": "empty"}),
-                codec=self.codec,
-            )
-        self.writer.flush()
+        # Nothing to flush before the first record: the schema (and with it the file header) is not known yet
+        if self.writer:
+            self.writer.flush()
 
     def close(self) -> None:
         if self.fp:
-            # fastavro buffers records per block, write out what is pending (or an empty container)
-            self.flush()
+            if not self.writer:
+                # No records were written, leave a valid (empty) container behind
+                self.writer = fastavro.write.Writer(
+                    self.fp,
+                    fastavro.parse_schema({"type": "record", "name": "empty"}),
+                    codec=self.codec,
+                )
+            # fastavro buffers records per block, write out what is pending
+            self.writer.flush()
             if not is_stdout(self.fp):
                 self.fp.close()
         self.fp = None
